@@ -34,3 +34,15 @@ Theorem C05_init_final_logic8 : forall ops (e : env code), (forall k, known (e k
             fin (exec_ops spec_prim ops e k) = exec_ops prim_fn ops (fun j => fin (e j)) k /\
             ini (exec_ops spec_prim ops e k) = exec_ops prim_fn ops (fun j => ini (e j)) k.
 Proof. exact proj8_circuit. Qed.
+
+(** CIRCUIT LEVEL: for ANY op list (opcodes of the 33 primitives), delays >= 0, capacities >= 4: if every input waveform is
+    predicted by its 8-valued code (same initial / final value; no finite transition unless the code shows activity), then so
+    is every signal -- in particular wherever 8-valued logic simulation reports a plain 0/1 the waveform has no transition *)
+From KV Require Import Model.SimOps Model.WaveOps.
+From KV Require Proofs.WaveCircuit.
+Theorem C05_logic8_predicts_wave : forall delays cap ops (e : wenv) (e8 : nat -> code),
+  KV.Proofs.WaveCircuit.good_delays delays -> KV.Proofs.WaveCircuit.good_caps cap ->
+  (forall o, In o ops -> prim_of (s_lut o) <> None) ->
+  (forall k, KV.Proofs.WaveCircuit.predicts (e k) (e8 k)) ->
+  forall k, KV.Proofs.WaveCircuit.predicts (wexec delays cap ops e k) (cexec ops e8 k).
+Proof. exact KV.Proofs.WaveCircuit.logic8_predicts_wave. Qed.
